@@ -201,7 +201,9 @@ class Check(CheckBase):
                     labels = {'SNAPSHOT NAME': FC.SNAPSHOT_NAME, 'SNAPSHOT DATE': FC.SNAPSHOT_DATE, 'PATH': FC.PATH, 'CHUNKS': FC.CHUNK_COUNT,
                               'SIZE': FC.SIZE, 'DIGEST': FC.DIGEST, 'MODIFIED AT': FC.MTIME}
                     head = [labels.get(c.strip()) for c in flines[0].split('\t')]
-                    if None in head or sorted(h.value for h in head) != sorted(c.value for c in fcols):
+                    if None in head:
+                        count('header_labels_not_recognised')          # labels are presentation; only judged when recognised
+                    elif sorted(h.value for h in head) != sorted(c.value for c in fcols):
                         viol('list-files header does not name the selected columns', header=flines[0], columns=[c.value for c in fcols])
                     else:
                         bykey = {(s_.name, p_): d_ for s_, p_, d_ in exp_rows}
